@@ -878,6 +878,8 @@ def judge_case(cid, evs, acc):
                 br, ac = region(fn, ns, xs, ref.val)
             except Exception:
                 pass
+            if kind == "inf" and br != "subnormal-argument" and FMAX >= abs(ref.val) >= mpf(2) ** 1023:
+                br, ac = "result-in-top-binade", "-"   # Go's math.Exp (amd64) already returns +Inf for arguments in (709.43, 709.78]
             sigbase = "C13|%s|%s|%s|%s|" % (fam, fn, br, ac)
             if br == "subnormal-argument":
                 kind = "wrong"
